@@ -294,6 +294,13 @@ func (m *TCPMuxDefault) handleConn(conn net.Conn) { //nolint:cyclop
 		return
 	}
 	m.mu.Lock()
+	if m.closed {
+		// Close has emptied the tables: nothing would ever close what is attached now.
+		m.mu.Unlock()
+		m.closeAndLogError(conn)
+
+		return
+	}
 
 	packetConn, ok := m.getConn(ufrag, isIPv6, localAddr.IP)
 	if !ok {
